@@ -209,6 +209,18 @@ def check_swap(params):
             dims, mat = ev
             if not np.array_equal(mat, perm_matrix(dims, dest)):
                 bad("matrix", "evaluates to a different matrix than the block transposition")
+    if cls == "tensor" and not out:
+        # the tensor-level swap offered by the class (what a functor uses for a Swap box of
+        # composite types): the same block transposition, as one matrix
+        from discopy.tensor import Tensor
+        dims = [o.name for o in (left @ right).objects]
+        if int(np.prod(dims or [1])) <= 3000:
+            t = Tensor.swap(left, right)
+            dest = [i + nr for i in range(nl)] + [i for i in range(nr)]
+            if ref.ty_key(t.dom) != ref.ty_key(left) + ref.ty_key(right) or ref.ty_key(t.cod) != ref.ty_key(right) + ref.ty_key(left):
+                bad("tensor-swap-type", "Tensor.swap : %s -> %s" % (t.dom, t.cod))
+            elif not np.array_equal(np.asarray(t.array).reshape(int(np.prod(dims or [1])), -1), perm_matrix(dims, dest)):
+                bad("tensor-swap-matrix", "Tensor.swap(%s, %s) is not the block transposition matrix" % (left, right))
     return out
 
 
